@@ -1,8 +1,24 @@
-(** C15 — A coroutine blocked in a hooked call does not stall its event loop. (provisional) *)
-From OCV Require Import Cases.C15 Sched.C15Lemmas.
+(** C15 — A coroutine blocked in a hooked call does not stall its event loop.
+
+    Model: the pool model [Sched.Pool] (worker loop, creator listener, scheduling pass) on virtual
+    time, single pool with the crate's default [min_size = 0], [keep_alive_time = 0] and any
+    [max_size]. Oracle: [Sched.C15Oracle.ok_c15] over observed histories. *)
+From OCV Require Import Cases.C15 Sched.C15Lemmas Sched.C15Proofs.
 Open Scope Z_scope.
+
+(** For every pool size [mx], every start clock and every history made of submissions (each task
+    = optionally one hooked sleep until any time, then any amount of computing), passes with any
+    deadline and clock changes, in any order and number: at the end of every pass that was not cut
+    by its deadline, either no task is pending (every task is finished or legitimately asleep), or
+    all [mx] worker slots are occupied by workers blocked in a hooked wait whose time has not come.
+    No pass errs or diverges. *)
+Theorem C15_holds : forall mx c0 ops,
+  wf15 ops = true -> ok_c15 mx c0 ops (prun (pw0 c0 [(0, mx, 0)]) ops) = true.
+Proof. exact c15_model. Qed.
 
 (** the body grammar accepted by [wf15] is exactly [body_of] *)
 Theorem C15_parse_sound : forall b sp, parse_body b = Some sp -> b = body_of sp.
 Proof. exact parse_body_sound. Qed.
+
+Print Assumptions C15_holds.
 Print Assumptions C15_parse_sound.
